@@ -20,7 +20,7 @@ fn c01_step(i: u8) {
     let (want, next) = ref_set2_step(i, b);
     crate::show!("C01 set2 ctx={} byte={:#04x} got={:?} want={:?} next_ctx={}", i, b, got, want, next);
     assert!(want.accepts(&got), "C01: Set 2 transition differs from the standard table");
-    assert!(is_ctx2(&s, next), "C01: Set 2 decoder left the expected prefix context");
+    assert!(is_ctx2(&s, next), "C01 closure: Set 2 decoder is not in the expected canonical prefix context (state identity)");
     kani::cover!(matches!(got, Ok(Some(_))));
     kani::cover!(got.is_err());
 }
@@ -52,7 +52,7 @@ pub fn c01_q_set2_keyboard_add_byte() {
     let (want, next) = ref_set2_step(i, b);
     crate::show!("C01 keyboard set2 ctx={} byte={:#04x} got={:?} want={:?}", i, b, got, want);
     assert!(want.accepts(&got), "C01: Keyboard::add_byte differs from the standard table");
-    assert!(is_ctx2(kb.verif_stages().1, next));
+    assert!(is_ctx2(kb.verif_stages().1, next), "C01 closure: Keyboard scancode stage not in the expected canonical context");
     kani::cover!(matches!(got, Ok(Some(_))));
 }
 
@@ -73,7 +73,7 @@ pub fn c01_t_set2_stream4() {
         c = next;
         n += 1;
     }
-    assert!(is_ctx2(&s, c));
+    assert!(is_ctx2(&s, c), "C01 closure: state after four bytes is not the expected canonical context");
     kani::cover!(c == 5);
 }
 
@@ -87,7 +87,7 @@ fn c02_step(i: u8) {
     let (want, next) = ref_set1_step(i, b);
     crate::show!("C02 set1 ctx={} byte={:#04x} got={:?} want={:?} next_ctx={}", i, b, got, want, next);
     assert!(want.accepts(&got), "C02: Set 1 transition differs from the standard table");
-    assert!(is_ctx1(&s, next), "C02: Set 1 decoder left the expected prefix context");
+    assert!(is_ctx1(&s, next), "C02 closure: Set 1 decoder is not in the expected canonical prefix context (state identity)");
     kani::cover!(matches!(got, Ok(Some(_))));
     kani::cover!(got.is_err());
 }
@@ -116,7 +116,7 @@ pub fn c02_q_set1_keyboard_add_byte() {
     let (want, next) = ref_set1_step(i, b);
     crate::show!("C02 keyboard set1 ctx={} byte={:#04x} got={:?} want={:?}", i, b, got, want);
     assert!(want.accepts(&got), "C02: Keyboard::add_byte differs from the standard table");
-    assert!(is_ctx1(kb.verif_stages().1, next));
+    assert!(is_ctx1(kb.verif_stages().1, next), "C02 closure: Keyboard scancode stage not in the expected canonical context");
     kani::cover!(matches!(got, Ok(Some(_))));
 }
 
@@ -137,6 +137,6 @@ pub fn c02_t_set1_stream4() {
         c = next;
         n += 1;
     }
-    assert!(is_ctx1(&s, c));
+    assert!(is_ctx1(&s, c), "C02 closure: state after four bytes is not the expected canonical context");
     kani::cover!(c == 2);
 }
